@@ -146,6 +146,24 @@ pub mod sim {
 
 use sim::Decision;
 
+// Index of the simulated pool worker executing the current code (None outside a pool).
+// In the sched build this must be local to the *shuttle* thread.
+#[cfg(feos_verif_shuttle)]
+shuttle::thread_local! {
+    static WORKER: std::cell::Cell<Option<usize>> = std::cell::Cell::new(None);
+}
+#[cfg(not(feos_verif_shuttle))]
+thread_local! {
+    static WORKER: std::cell::Cell<Option<usize>> = const { std::cell::Cell::new(None) };
+}
+
+fn other_worker() -> usize {
+    let pool = current_num_threads().max(2);
+    let me = WORKER.with(|w| w.get()).unwrap_or(0);
+    let k = 1 + sim::pick(pool - 1);
+    (me + k) % pool
+}
+
 // ---------------------------------------------------------------- join
 
 /// Provides context to a closure called by `join_context`.
@@ -193,7 +211,11 @@ where
             (ra, rb)
         }
         Decision::StolenBefore => {
+            let me = WORKER.with(|w| w.get());
+            let thief = other_worker();
+            WORKER.with(|w| w.set(Some(thief)));
             let rb = oper_b(FnContext::new(true));
+            WORKER.with(|w| w.set(me));
             let ra = oper_a(FnContext::new(false));
             (ra, rb)
         }
@@ -210,6 +232,7 @@ where
     RB: Send,
 {
     let pool = current_num_threads();
+    let thief = other_worker();
     // shuttle 0.9.3's scoped threads cannot be nested safely (the scope owner is
     // unblocked by *any* scope it owns, and before results are published), so the
     // stolen job runs on a plain shuttle thread with the lifetime erased, exactly as
@@ -223,6 +246,7 @@ where
         let slot = slot;
         // the stolen job runs "inside the pool" as well
         sim::STATE.with(|s| s.borrow_mut().pool = pool);
+        WORKER.with(|w| w.set(Some(thief)));
         let r = oper_b(FnContext::new(true));
         // SAFETY: the spawning frame is blocked in `join` until this thread is done
         unsafe { *slot.0 = Some(r) };
@@ -246,7 +270,11 @@ where
     RB: Send,
 {
     sim::end_concurrent();
+    let me = WORKER.with(|w| w.get());
+    let thief = other_worker();
+    WORKER.with(|w| w.set(Some(thief)));
     let rb = oper_b(FnContext::new(true));
+    WORKER.with(|w| w.set(me));
     let ra = oper_a(FnContext::new(false));
     (ra, rb)
 }
@@ -476,7 +504,7 @@ pub fn current_num_threads() -> usize {
 }
 
 pub fn current_thread_index() -> Option<usize> {
-    Some(0)
+    WORKER.with(|w| w.get())
 }
 
 pub fn current_thread_has_pending_tasks() -> Option<bool> {
@@ -589,7 +617,9 @@ impl ThreadPool {
             s.stats.installs += 1;
             std::mem::replace(&mut s.pool, self.num_threads)
         });
+        let old_worker = WORKER.with(|w| w.replace(Some(0)));
         let r = op();
+        WORKER.with(|w| w.set(old_worker));
         sim::STATE.with(|s| s.borrow_mut().pool = old);
         r
     }
